@@ -340,6 +340,14 @@ class Engine:
         if isinstance(f, ast.Attribute) and (parts is None or (parts[0] in st.env)):
             recv = fv.ev(f.value, st, prog)
             return X.method(self, fv, st, recv, f.attr, node, prog)
+        if parts is not None and len(parts) == 1 and parts[0] not in st.funcs and not prog:
+            import re as _re
+
+            if _re.fullmatch(r"(perm|shuffle|where_rank)\d+(_inv)?", parts[0]):
+                # ghost function of an external that was not called on this path: unconstrained symbol
+                fv.counter += 1
+                st.funcs = dict(st.funcs)
+                st.funcs[parts[0]] = z3.Function("%s!unset%d" % (parts[0], fv.counter), I, I)
         if parts is not None and len(parts) == 1 and parts[0] in st.funcs:
             args = [fv.as_int(fv.ev(a, st, False)).e for a in node.args]
             return SInt(st.funcs[parts[0]](*args))
@@ -474,6 +482,12 @@ class Engine:
         cs.assumes = st.assumes
         cs.guards = list(st.guards)
         cs.funcs = st.funcs
+        for gname in (cd.options.get("ghost_params") or {}):
+            key = "%s_%s" % (short, gname)
+            if key not in st.env:
+                raise VerifError("call to %s needs ghost argument %s (assign it in ghost code before the call)" % (cd.qualname, key))
+            gv = st.env[key]
+            cs.env[gname] = fv.arr_value(st, gv) if isinstance(gv, SArr) else gv
         pre = cs.snapshot()
         pre.heap = dict(st.heap)
         pre.old = pre
